@@ -6,17 +6,20 @@ Decides (from the syntax trees of auth/auth/*.py and hailtop/config/deploy_confi
       session is, on every CFG path from the tainted definition of that value to the redirect, preceded by `validate_next_page_url(<that value>)`
       that returned normally (leaving the validation through an exception edge into a handler that falls through does not count)
   R2  the same for what the service accepts into the session: `session['next'] = x`
-  R3  validator decision list (locals expanded, options bound to the values the call sites pass):
-      (i)  no hostile value of a fixed corpus (backslash / TAB / userinfo / suffix / prefix / empty-netloc forms, read the way a browser reads a
-           Location header) is accepted - evaluated on the extracted tests by our own evaluator of the string operations they use; a hit is
-           reported with the concrete value and the host the browser lands on;
-      (ii) proof side: on every accepting path of the truth table `urlparse(next).netloc` was found to be an exact member of the netlocs of the
-           statement's services (batch, auth, ci, monitoring), or the path condition confines the value to prefix classes that cannot name a
-           host (first character `/`, second character none of `/ \ TAB LF CR`); an accepting path that is neither is an analysis error;
-      prefix / suffix / substring tests against the service list and a widened service list are violations
+  R3  validator decision list (locals expanded; options of the validator bound, by constant propagation, to the values the call sites pass):
+      the truth table over the extracted tests enumerates every accepting path; a path is fine iff it has established
+      `urlparse(next).netloc in <netlocs of the statement's services batch/auth/ci/monitoring>` (or `next.startswith(<their origin>/)`), or its
+      conditions confine the value to prefix classes that cannot name a host for a browser (first character `/`, second none of `/ \ TAB LF CR`).
+      Every other accepting path whose conditions are all in the closed table of recognised shapes is a VIOLATION: emptiness of urlparse
+      fields, scheme tests, `.hostname` instead of `.netloc`, split/strip-ped netloc, endswith, substring, prefix of the raw URL with an
+      unterminated origin, prefix of the netloc - each with the known verdict "does not confine the host" and a generic witness schema.
+      A path with a condition outside the table is an analysis error.  A widened service list is a violation.
+      Only AFTER a violation is established a concrete example is printed: the first string of a small corpus that satisfies the failing
+      path's conditions (our own evaluator of the string operations) and that the browser model resolves to a foreign host - illustration, never
+      a basis for a verdict.
   R4  DeployConfig.external_url returns `<scheme>s://<non-empty authority>...` on every return, so the list of valid netlocs never contains the
       empty string (otherwise `/\\evil.com`, netloc '', would be accepted)
-Does not decide: browser behaviour beyond the small WHATWG model in browser_host(); values outside the corpus on paths that test the netloc exactly.
+Does not decide: browser-vs-urlparse differentials for values whose netloc IS an exact member of the allow-list (e.g. exotic schemes).
 """
 from __future__ import annotations
 
@@ -30,13 +33,13 @@ META = dict(
     category='other',
     text='Intra-procedural taint analysis with def-use and CFG must-pass-through over every function of auth/auth/*.py (redirect helpers followed to their '
          'call sites): every redirect location and every stored session[\'next\'] that derives from client-controlled data is validated on all paths; plus a '
-         'decision-list analysis of the validator: exhaustive truth table showing that every accepting path found the parsed netloc to be an exact member of '
-         'the four services\' netlocs (or confines the value to site-relative prefixes), and a corpus of hostile values, read as a browser reads them, none of '
-         'which is accepted. Level is `other`: the browser is a small model, the corpus is finite.',
-    note='Trusted: CPython ast; engines/pyfacts CFG; urllib.parse.urlparse of the checking interpreter as the semantics of urlparse; aiohttp redirect classes; '
-         'browser_host() as the WHATWG reading of a Location header. Not decided: parser differentials outside the model.',
-    technique='static analysis: taint / def-use + CFG dominance (must-pass-through with exception edges) + predicate-abstraction truth table + '
-              'abstract (prefix-class) and concrete evaluation of the extracted string tests',
+         'decision-list analysis of the validator: an exhaustive truth table over its extracted tests shows that every accepting path has found the parsed '
+         'netloc to be an exact member of the four services\' netlocs, or confines the value to site-relative prefixes (closed table of condition shapes, '
+         'prefix-class abstraction).  Level is `other`: which strings a browser reads as naming a host is a small fixed table, not a model of every browser.',
+    note='Trusted: CPython ast; engines/pyfacts CFG; aiohttp redirect classes; the table of condition shapes and of dangerous second characters (/ \\ TAB LF CR). '
+         'The corpus / browser_host() model only instantiates an example for a violation that the table has already established; no verdict rests on it.',
+    technique='static analysis: taint / def-use + CFG dominance (must-pass-through with exception edges) + predicate-abstraction truth table over a closed '
+              'table of condition shapes + prefix-class abstraction',
     design_ref='DESIGN.md §3 C29',
 )
 
@@ -425,7 +428,8 @@ def _domains_list(ctx: Ctx, fn: pf.FuncDef, e: ast.AST, imports: Dict[str, str])
 
 
 # --------------------------------------------------------------------------------------
-# the browser's reading of a Location value (WHATWG URL parsing against an https base), and a witness corpus
+# ILLUSTRATION ONLY: the browser's reading of a Location value and a corpus of hostile values, used to print an example for a violation
+# that the decision-list analysis has already established (never to decide)
 # --------------------------------------------------------------------------------------
 
 SAME_SITE = '<same site>'
@@ -500,7 +504,7 @@ def _corpus(domains: List[str]) -> List[str]:
 
 
 # --------------------------------------------------------------------------------------
-# our own evaluator for the string tests of the validator (extracted syntax tree; nothing of the repository is run)
+# ILLUSTRATION ONLY: evaluator of the string tests, used by _illustrate() to pick an example consistent with an already established failing path
 # --------------------------------------------------------------------------------------
 
 
@@ -687,29 +691,20 @@ class StrEval:
         return set(out) if isinstance(e, ast.SetComp) else out
 
 
-def _run_validator(fn: pf.FuncDef, tests: Dict[int, ast.AST], imports: Dict[str, str], param: str, value: str, indep: Dict[str, bool],
-                   options: Optional[Dict[str, object]] = None) -> Tuple[str, List[str]]:
-    """Outcome of the validator's decision list on one concrete string: 'accept' | 'raise' | 'unknown' (+ the tests taken)."""
-    sev = StrEval(imports, dict(options or {}, **{param: value}))
-    taken: List[str] = []
-
-    def val(atom: ast.AST) -> bool:
-        k = absdom.atom_key(atom)
-        if k in indep:
-            return indep[k]
+def _illustrate(conds: List[Tuple[ast.AST, bool]], imports: Dict[str, str], param: str, options: Dict[str, object], domains: List[str]) -> Optional[Tuple[str, str]]:
+    """ILLUSTRATION ONLY - never a basis for a verdict.  For a violation the decision-list analysis has already established, pick the first value of the
+    corpus that satisfies the failing path's conditions (evaluated with StrEval) and that the browser model resolves to a foreign host."""
+    for w in _corpus(domains):
+        host = browser_host(w)
+        if host in (SAME_SITE, NOT_NAVIGABLE) or host in domains:
+            continue
+        sev = StrEval(imports, dict(options, **{param: w}))
         try:
-            r = bool(sev.ev(tests.get(id(atom), atom)))
-        except _Raises:
-            raise
-        taken.append(short(k, 60) if r else f'not ({short(k, 60)})')
-        return r
-    try:
-        o = absdom.walk_block(fn.body, val)
-    except _Unknown:
-        return 'unknown', taken
-    except _Raises:
-        return 'raise', taken
-    return ('raise' if o.kind == 'raise' else 'accept'), taken
+            if all(bool(sev.ev(e)) == want for e, want in conds):
+                return w, host
+        except (_Unknown, _Raises):
+            continue
+    return None
 
 
 # --------------------------------------------------------------------------------------
@@ -792,7 +787,27 @@ def _class_eval(e: ast.AST, p: str, c0: str, c1: str) -> Optional[bool]:
                     if hit is None:
                         return None
                     return hit if isinstance(op, (ast.Eq, ast.In)) else not hit
-                if isinstance(x.slice, ast.Slice) and x.slice.lower is None and x.slice.step is None and isinstance(x.slice.upper, ast.Constant) \
+                if isinstance(x.slice, ast.Slice) and isinstance(x.slice.lower, ast.Constant) and x.slice.lower.value == 1 and x.slice.step is None \
+                        and isinstance(x.slice.upper, ast.Constant) and x.slice.upper.value == 2 and not flipped:
+                    # p[1:2]: the second character, '' when there is none
+                    consts = None
+                    if isinstance(op, (ast.Eq, ast.NotEq)) and pf.const_str(y) is not None:
+                        consts = [pf.const_str(y)]
+                    elif isinstance(op, (ast.In, ast.NotIn)) and isinstance(y, (ast.Tuple, ast.List, ast.Set)) and all(pf.const_str(z) is not None for z in y.elts):
+                        consts = [pf.const_str(z) for z in y.elts]
+                    if consts is None:
+                        return None
+                    if c1 == _END:
+                        hit2: Optional[bool] = '' in consts
+                    elif c1 == _OTHER:
+                        hit2 = None if any(len(k) == 1 and _cls_of(k) == _OTHER for k in consts) else False  # type: ignore[arg-type]
+                    else:
+                        hit2 = c1 in consts
+                    if hit2 is None:
+                        return None
+                    return hit2 if isinstance(op, (ast.Eq, ast.In)) else not hit2
+                if isinstance(x.slice, ast.Slice) and (x.slice.lower is None or (isinstance(x.slice.lower, ast.Constant) and x.slice.lower.value == 0)) \
+                        and x.slice.step is None and isinstance(x.slice.upper, ast.Constant) \
                         and x.slice.upper.value in (1, 2) and isinstance(op, (ast.Eq, ast.NotEq)) and pf.const_str(y) is not None:
                     n = x.slice.upper.value
                     k = pf.const_str(y)
@@ -833,12 +848,212 @@ def _mentions_param(e: ast.AST, p: str) -> bool:
     return any(isinstance(n, ast.Name) and n.id == p for n in ast.walk(e))
 
 
+# --------------------------------------------------------------------------------------
+# closed table of condition shapes: what does a test on the value say about the host a browser will go to?
+# --------------------------------------------------------------------------------------
+#   'member'   urlparse(p).netloc [not] in <netlocs of the statement's services>           establishes the host (positive polarity)
+#   'origin'   p.startswith(<external_url(svc, '/...')>)  (authority terminated by '/')     establishes the host (positive polarity)
+#   'prefix'   tests of the first two characters of p                                       decided per prefix class (_class_eval)
+#   'nonconf'  recognised, and under either polarity does NOT confine the host              (kind, generic witness schema)
+#   None       not in the table: the path cannot be decided
+
+_NONCONF = {
+    'emptiness': ("tests only whether {x} is empty as Python's urlparse sees it; a browser reads `/\\host`, `/<TAB>/host`, `https:/host` differently", '/\\evil.example/'),
+    'scheme': ('tests the scheme only', 'https://evil.example/'),
+    'hostname': ('compares urlparse().hostname, which Python takes after the last `@` even when a `\\` (a path separator for browsers) precedes it',
+                 'https://evil.example\\@{good}/'),
+    'transformed-netloc': ('compares only a part of the netloc (split / strip / partition): the rest - userinfo@, :port - is where the real host hides', 'https://{good}@evil.example/'),
+    'suffix': ('is a suffix test: any host or URL that merely ends with an allowed name passes', 'https://evil{good}/  or  https://evil.example/?{good}'),
+    'substring': ('is a substring test: the allowed name can sit in the path, query or a longer host', 'https://evil.example/?{good}'),
+    'origin-prefix': ('is a prefix test on the raw URL with an origin that is not terminated by `/`: the authority can continue', 'https://{good}.evil.example/  or  https://{good}@evil.example/'),
+    'netloc-prefix': ('is a prefix test on the netloc: the host can continue', 'https://{good}.evil.example/'),
+}
+
+
+def _root(e: ast.AST, p: str, imports: Dict[str, str]) -> Optional[Tuple[str, List[str]]]:
+    """('raw' | 'attr:<urlparse attribute>', [string operations applied on top]) if e is derived from the parameter by method calls / subscripts only."""
+    ops: List[str] = []
+    cur = e
+    while True:
+        if isinstance(cur, ast.Name) and cur.id == p:
+            return 'raw', ops
+        if isinstance(cur, ast.Attribute) and isinstance(cur.value, ast.Call) and len(cur.value.args) == 1 and not cur.value.keywords \
+                and isinstance(cur.value.args[0], ast.Name) and cur.value.args[0].id == p:
+            f = pf.dotted(cur.value.func) or ''
+            if f.split('.')[-1] in ('urlparse', 'urlsplit') and imports.get(f.split('.')[0], '').startswith('urllib'):
+                return 'attr:' + cur.attr, ops
+            return None
+        if isinstance(cur, ast.Call) and isinstance(cur.func, ast.Attribute) and not cur.keywords and all(isinstance(a, ast.Constant) for a in cur.args):
+            ops.append(cur.func.attr)
+            cur = cur.func.value
+        elif isinstance(cur, ast.Subscript) and (isinstance(cur.slice, ast.Constant) or isinstance(cur.slice, ast.Slice) or
+                                                 (isinstance(cur.slice, ast.UnaryOp) and isinstance(cur.slice.operand, ast.Constant))):
+            ops.append('[]')
+            cur = cur.value
+        else:
+            return None
+
+
+def _origin_arg(fn: pf.FuncDef, e: ast.AST, gen_services: Dict[str, List[str]]) -> Optional[Tuple[List[str], str]]:
+    """`deploy_config.external_url(<service>, <constant path>)` -> (services, path); the service is a constant or a generator variable over constants."""
+    if isinstance(e, ast.Call) and (pf.dotted(e.func) or '').split('.')[-1] == 'external_url' and len(e.args) == 2 and not e.keywords and pf.const_str(e.args[1]) is not None:
+        a0 = e.args[0]
+        if pf.const_str(a0) is not None:
+            return [pf.const_str(a0)], pf.const_str(e.args[1])  # type: ignore[list-item,return-value]
+        if isinstance(a0, ast.Name) and a0.id in gen_services:
+            return gen_services[a0.id], pf.const_str(e.args[1])  # type: ignore[return-value]
+    return None
+
+
+class Shape:
+    def __init__(self, kind: str, sub: str = '', x: str = '', services: Optional[List[str]] = None):
+        self.kind, self.sub, self.x, self.services = kind, sub, x, services
+
+
+def _atom_shape(ctx: Ctx, fn: pf.FuncDef, a: ast.AST, p: str, imports: Dict[str, str], gen_services: Optional[Dict[str, List[str]]] = None,
+                gen_domains: Optional[Set[str]] = None) -> Optional[Shape]:
+    """Look an (expanded) atomic test up in the closed table."""
+    gen_services = gen_services or {}
+    gen_domains = gen_domains or set()
+
+    def is_domains(e: ast.AST) -> Optional[List[str]]:
+        return _domains_list(ctx, fn, e, imports)
+
+    def is_allowed_name(e: ast.AST) -> bool:  # one allowed netloc / a generator variable ranging over them
+        return (isinstance(e, ast.Name) and e.id in gen_domains) or (isinstance(e, ast.Attribute) and e.attr == 'netloc' and isinstance(e.value, ast.Call)
+                                                                     and e.value.args and _origin_arg(fn, e.value.args[0], gen_services) is not None)
+    # any(<elt> for v in <services | domains>) / all(...)
+    if isinstance(a, ast.Call) and isinstance(a.func, ast.Name) and a.func.id in ('any', 'all') and len(a.args) == 1 and not a.keywords \
+            and isinstance(a.args[0], (ast.GeneratorExp, ast.ListComp)) and len(a.args[0].generators) == 1 and not a.args[0].generators[0].ifs \
+            and isinstance(a.args[0].generators[0].target, ast.Name):
+        g = a.args[0].generators[0]
+        it = pf.expand_locals(fn, g.iter, 4)
+        gs, gd = dict(gen_services), set(gen_domains)
+        doms = is_domains(it)
+        if doms is not None:
+            gd.add(g.target.id)
+        elif isinstance(it, (ast.List, ast.Tuple, ast.Set)) and all(pf.const_str(x) is not None for x in it.elts):
+            gs[g.target.id] = [pf.const_str(x) for x in it.elts]  # type: ignore[misc]
+        else:
+            return None
+        elt = a.args[0].elt
+        neg = False
+        while isinstance(elt, ast.UnaryOp) and isinstance(elt.op, ast.Not):
+            elt, neg = elt.operand, not neg
+        if isinstance(elt, ast.BoolOp):
+            return None
+        sh = _atom_shape(ctx, fn, pf.expand_locals(fn, elt, 4), p, imports, gs, gd)
+        if sh is None or sh.kind == 'prefix':
+            return None
+        if sh.kind in ('member', 'origin'):
+            return sh if (a.func.id == 'any' and not neg) else None
+        return sh
+    # truthiness / emptiness
+    r = _root(a, p, imports)
+    if r is not None and not r[1]:
+        if r[0] == 'raw':
+            return Shape('prefix')
+        return Shape('nonconf', 'emptiness', f'urlparse({p}).{r[0][5:]}')
+    if isinstance(a, ast.Compare) and len(a.ops) == 1:
+        l, rt, op = a.left, a.comparators[0], a.ops[0]
+        rl, rr = _root(l, p, imports), _root(rt, p, imports)
+        # exact membership / hostname / transformed netloc against the allow-list
+        if isinstance(op, (ast.In, ast.NotIn)) and rl is not None:
+            doms = is_domains(rt)
+            if doms is not None or is_allowed_name(rt):
+                if doms is None:
+                    return Shape('nonconf', 'substring', pf.nsrc(l))  # `netloc in <one allowed name>`: substring of a string
+                if rl == ('attr:netloc', []):
+                    return Shape('member', services=doms)
+                if rl[0] == 'attr:hostname':
+                    return Shape('nonconf', 'hostname')
+                if rl[0] == 'attr:netloc' and all(o in ('lower', 'casefold', 'upper') for o in rl[1]):
+                    return None  # case folding of an otherwise exact test: not in the table
+                if rl[0] in ('attr:netloc', 'raw'):
+                    return Shape('nonconf', 'transformed-netloc')
+                return None
+        # `<allowed name> in <value>`: substring
+        if isinstance(op, (ast.In, ast.NotIn)) and rr is not None and rr[0] in ('raw', 'attr:netloc', 'attr:path', 'attr:hostname'):
+            if rr == ('raw', []) and pf.const_str(l) is not None and len(pf.const_str(l)) == 1:  # type: ignore[arg-type]
+                return Shape('prefix')
+            if is_allowed_name(l) or pf.const_str(l) is not None:
+                return Shape('nonconf', 'substring')
+            return None
+        # comparisons with constants
+        for x, y, rx in ((l, rt, rl), (rt, l, rr)):
+            if rx is None:
+                continue
+            const = isinstance(y, ast.Constant) or (isinstance(y, (ast.Tuple, ast.List, ast.Set)) and all(isinstance(z, ast.Constant) for z in y.elts))
+            if not const:
+                continue
+            if rx[0] == 'raw':
+                if any(_class_eval(a, p, c0, c1) is not None for c0 in _CLASSES for c1 in _CLASSES):
+                    return Shape('prefix')
+                if isinstance(y, ast.Constant) and y.value in ('', None):
+                    return Shape('prefix')
+                return None
+            if rx[0] == 'attr:scheme' and not rx[1]:
+                return Shape('nonconf', 'scheme') if not (isinstance(y, ast.Constant) and y.value in ('', None)) else Shape('nonconf', 'emptiness', f'urlparse({p}).scheme')
+            if isinstance(y, ast.Constant) and y.value in ('', None) and not rx[1]:
+                return Shape('nonconf', 'emptiness', f'urlparse({p}).{rx[0][5:]}')
+            return None
+        # len(p) <op> n
+        if isinstance(l, ast.Call) and pf.dotted(l.func) == 'len' and len(l.args) == 1 and _root(l.args[0], p, imports) == ('raw', []) and isinstance(rt, ast.Constant) \
+                and rt.value in (0, 1):
+            return Shape('prefix')
+        return None
+    # string predicates
+    if isinstance(a, ast.Call) and isinstance(a.func, ast.Attribute) and len(a.args) >= 1 and not a.keywords:
+        base = _root(a.func.value, p, imports)
+        meth = a.func.attr
+        if base is None:
+            # `<allowed name>.startswith(p)` and the like: not in the table
+            return None
+        arg = pf.expand_locals(fn, a.args[0], 4)
+        if meth == 'endswith':
+            return Shape('nonconf', 'suffix')
+        if meth in ('find', 'rfind', 'index', 'count'):
+            return Shape('nonconf', 'substring')
+        if meth == 'startswith':
+            lits = [pf.const_str(arg)] if pf.const_str(arg) is not None else (
+                [pf.const_str(z) for z in arg.elts] if isinstance(arg, ast.Tuple) and all(pf.const_str(z) is not None for z in arg.elts) else None)
+            if base[0] == 'attr:netloc':
+                return Shape('nonconf', 'netloc-prefix')
+            if base != ('raw', []):
+                return None
+            if lits is not None:
+                if any('://' in k or k.lower().startswith(('http:', 'https:')) for k in lits):  # type: ignore[union-attr]
+                    return None  # a hard-coded origin: cannot be related to the deployment's netlocs
+                return Shape('prefix')
+            org = _origin_arg(fn, arg, gen_services)
+            if org is not None:
+                services, path = org
+                return Shape('origin', services=services) if path.startswith('/') else Shape('nonconf', 'origin-prefix')
+            if is_allowed_name(arg):
+                return Shape('nonconf', 'origin-prefix')
+            return None
+    return None
+
+
+def _const_truth(e: ast.AST, binding: Dict[str, object]) -> Optional[bool]:
+    """Truth of a test that only reads an option of the validator, under the constant the call sites pass (constant propagation)."""
+    if isinstance(e, ast.Name) and e.id in binding:
+        return bool(binding[e.id])
+    if isinstance(e, ast.Compare) and len(e.ops) == 1 and isinstance(e.left, ast.Name) and e.left.id in binding and isinstance(e.comparators[0], ast.Constant):
+        v, c = binding[e.left.id], e.comparators[0].value
+        if isinstance(e.ops[0], (ast.Eq, ast.Is)):
+            return v == c
+        if isinstance(e.ops[0], (ast.NotEq, ast.IsNot)):
+            return v != c
+    return None
+
+
 def _check_validator(ctx: Ctx, m: pf.Module, imports: Dict[str, str]) -> int:
     fn = m.func(VALIDATOR)
     params = [a.arg for a in fn.args.posonlyargs + fn.args.args]
     ctx.need(len(params) >= 1 and not fn.args.vararg and not fn.args.kwarg, f'{VALIDATOR}: unexpected parameters {params}')
     p = params[0]
-    # further parameters are options: the values they can take are their defaults and what the call sites pass
+    # further parameters are options: the values they can take are their defaults and the constants the call sites pass
     opt_values: Dict[str, List[object]] = {}
     extras = params[1:] + [a.arg for a in fn.args.kwonlyargs]
     if extras:
@@ -860,163 +1075,112 @@ def _check_validator(ctx: Ctx, m: pf.Module, imports: Dict[str, str]) -> int:
                             ctx.need(isinstance(opt_values[x][0], bool), f'{VALIDATOR}: option `{x}` is passed a computed non-boolean value')
                             opt_values[x] = [False, True]
     import itertools
-    bindings = [dict(zip(opt_values, combo)) for combo in itertools.product(*opt_values.values())] if opt_values else [{}]
+    bindings: List[Dict[str, object]] = [dict(zip(opt_values, combo)) for combo in itertools.product(*opt_values.values())] if opt_values else [{}]
     ctx.need(not any(isinstance(n, (ast.Try, ast.While, ast.For, ast.With, ast.AsyncWith, ast.Match)) for n in pf.walk_shallow(fn)),
              f'{VALIDATOR}: loops/try/with in the validator body are not a recognised shape')
-    ctx.need(not any(isinstance(n, ast.Name) and n.id == p and isinstance(n.ctx, ast.Store) for n in pf.walk_shallow(fn)), f'{VALIDATOR}: the parameter is rebound')
+    ctx.need(not any(isinstance(n, ast.Name) and n.id in params and isinstance(n.ctx, ast.Store) for n in pf.walk_shallow(fn)), f'{VALIDATOR}: a parameter is rebound')
     cons = f'{F}::{VALIDATOR}'
     atoms = absdom.collect_test_atoms(fn.body)
-    expanded: Dict[int, ast.AST] = {id(a): pf.expand_locals(fn, a, 4) for a in atoms}
-    by_key: Dict[str, ast.AST] = {absdom.atom_key(a): expanded[id(a)] for a in atoms}
-
-    def netloc_subject(e: ast.AST) -> Optional[ast.expr]:
-        return _is_urlparse_netloc(fn, e, imports)
-
-    member_atoms: Dict[str, bool] = {}  # key -> True if atom is `x in L`, False if `x not in L`
-    free: List[str] = []
+    ctx.need(len(atoms) <= 10, f'{VALIDATOR}: too many tests for the truth table')
+    by_key: Dict[str, ast.AST] = {absdom.atom_key(a): pf.expand_locals(fn, a, 4) for a in atoms}
+    line_of = {absdom.atom_key(a): getattr(a, 'lineno', fn.lineno) for a in atoms}
+    keys = list(by_key)
+    about_value = [k for k in keys if _mentions_param(by_key[k], p)]
+    on_options = [k for k in keys if k not in about_value and pf.names_in(by_key[k]) & set(extras)]
+    shapes: Dict[str, Optional[Shape]] = {k: _atom_shape(ctx, fn, by_key[k], p, imports) for k in about_value}
     services: Optional[List[str]] = None
-    weak_seen = False
-    for a0 in atoms:
-        k = absdom.atom_key(a0)
-        a = expanded[id(a0)]
-        mentions_netloc = any(netloc_subject(n) is not None for n in ast.walk(a) if isinstance(n, ast.Attribute))
-        weak = [pf.nsrc(c.func) for c in ast.walk(a) if isinstance(c, ast.Call) and isinstance(c.func, ast.Attribute)
-                and c.func.attr in ('startswith', 'endswith', 'find', 'index', 'count', 'search', 'match', 'fullmatch')]
-        if isinstance(a, ast.Compare) and len(a.ops) == 1 and isinstance(a.ops[0], (ast.In, ast.NotIn)):
-            subject = netloc_subject(a.left)
-            doms = _domains_list(ctx, fn, a.comparators[0], imports)
-            if subject is not None and doms is not None:
-                ctx.need(isinstance(subject, ast.Name), f'{VALIDATOR}: membership test parses `{pf.nsrc(subject)}`, not a plain variable')
-                if subject.id != p:  # type: ignore[union-attr]
-                    ctx.bad('R3', cons + '::subject', f'the membership test parses `{subject.id}`, not the parameter `{p}` being validated', m.path, a0.lineno)  # type: ignore[union-attr]
-                member_atoms[k] = isinstance(a.ops[0], ast.In)
-                services = doms
-                continue
-            rsub = netloc_subject(a.comparators[0])
-            if rsub is not None:
-                ctx.bad('R3', cons + '::membership', f'`{k}` is a substring test on the netloc, not exact membership in the list of valid netlocs: '
-                        'https://auth.hail.is.evil.example/ passes', m.path, a0.lineno)
-                member_atoms[k] = isinstance(a.ops[0], ast.In)
-                weak_seen = True
-                continue
+    for k in about_value:
+        sh = shapes[k]
+        if sh is not None and sh.kind in ('member', 'origin'):
+            services = sorted(set(services or []) | set(sh.services or []))
+    # a membership test on something else than the parameter
+    for k in keys:
+        if k in about_value:
+            continue
+        a = by_key[k]
+        if isinstance(a, ast.Compare) and len(a.ops) == 1 and isinstance(a.ops[0], (ast.In, ast.NotIn)) and _domains_list(ctx, fn, a.comparators[0], imports) is not None:
+            subject = _is_urlparse_netloc(fn, a.left, imports)
             if subject is not None:
-                raise AnalysisError(f'{VALIDATOR}: cannot resolve the collection `{pf.nsrc(a.comparators[0])}` the netloc is tested against')
-        mentions_domains = any(_domains_list(ctx, fn, n, imports) is not None for n in ast.walk(a) if isinstance(n, (ast.ListComp, ast.List, ast.Tuple, ast.Set, ast.SetComp, ast.GeneratorExp)))
-        nested_sub = [c for c in ast.walk(a) if c is not a and isinstance(c, ast.Compare) and len(c.ops) == 1 and isinstance(c.ops[0], (ast.In, ast.NotIn))
-                      and ((isinstance(c.comparators[0], ast.Name) and c.comparators[0].id == p) or netloc_subject(c.comparators[0]) is not None)]
-        if (weak and mentions_domains and (mentions_netloc or _mentions_param(a, p))) or (nested_sub and mentions_domains):
-            how = weak[0] if weak else f'`{pf.nsrc(nested_sub[0])}`'
-            ctx.bad('R3', cons + '::membership', f'`{short(k, 100)}` decides by {how} (prefix/suffix/substring), not exact membership of the netloc: '
-                    'e.g. https://evil.example/?auth.hail.is or https://auth.hail.is.evil.example/ passes', m.path, a0.lineno)
-            weak_seen = True
-        free.append(k)
+                ctx.bad('R3', cons + '::subject', f'the membership test parses `{pf.nsrc(subject)}`, not the parameter `{p}` being validated', m.path, line_of[k])
     if services is not None:
         extra = sorted(set(services) - SERVICES)
         ctx.check(not extra, 'R3', cons + '::services',
                   f'valid hosts include service(s) {extra} beyond the statement\'s batch/auth/ci/monitoring: a next URL on that host is accepted', m.path, fn.lineno,
                   detail={'services': services})
 
-    # -- tests about the value vs. tests about something else (configuration flags ...): the latter are enumerated as independent booleans
-    about_value = [k for k in list(member_atoms) + free if _mentions_param(by_key[k], p)]
-    indep = [k for k in free if k not in about_value]
-    ctx.need(len(indep) <= 4 and len(free) <= 8, f'{VALIDATOR}: too many free predicates')
-
-    # -- (1) concrete counter-examples: the decision list evaluated by our own string evaluator on a corpus of hostile values
-    domains = [f'{s_}.hail.is' for s_ in ['batch', 'auth', 'ci', 'monitoring']]
-    tests = {id(a0): expanded[id(a0)] for a0 in atoms}
-    witness = None
-    n_eval = n_unknown = 0
-    # tests on the options alone have the value the binding gives them
-    fixed_by: List[Tuple[Dict[str, object], Dict[str, bool]]] = []
-    for b in bindings:
-        fx: Dict[str, bool] = {}
-        for k in indep:
-            if b and pf.names_in(by_key[k]) & set(b):
-                try:
-                    fx[k] = bool(StrEval(imports, b).ev(by_key[k]))
-                except (_Unknown, _Raises):
-                    pass
-        fixed_by.append((b, fx))
-    combos = [(b, dict(iv)) for b, fx in fixed_by for iv in absdom.valuations(indep) if all(iv[k] == v for k, v in fx.items())]
-    for b, iv in combos:
-        for w in _corpus(domains):
-            outcome, taken = _run_validator(fn, tests, imports, p, w, iv, b)
-            n_eval += 1
-            if outcome == 'unknown':
-                n_unknown += 1
-                continue
-            if outcome == 'accept':
-                host = browser_host(w)
-                if host not in (SAME_SITE, NOT_NAVIGABLE) and host not in domains:
-                    witness = (w, host, taken, dict(iv, **{f'option {k}': v for k, v in b.items()}))
-                    break
-        if witness:
-            break
-    ctx.unit('validator_witness_evaluations', n_eval)
-    if witness:
-        w, host, taken, iv = witness
-        ctx.bad('R3', cons + '::decision', f'{VALIDATOR}({w!r}) returns normally (tests taken: {"; ".join(taken) or "none"}'
-                + (f'; with {iv}' if iv else '') + f') and a browser following `Location: {w}` lands on {host!r}, which is not one of the allow-listed '
-                f'hosts: no path of the validator that accepts this value has established `urlparse({p}).netloc in <netlocs of batch/auth/ci/monitoring>`',
-                m.path, fn.lineno, extra={'witness': w, 'browser_host': host, 'tests': taken})
-        return n_eval
-
-    # -- (2) proof side: every accepting path has established exact membership, or admits only strings that cannot name a host
-    if not member_atoms:
-        if weak_seen:
-            ctx.bad('R3', cons + '::decision', 'no exact-membership test of the netloc remains in the validator', m.path, fn.lineno)
-            return n_eval
-        computes = any(netloc_subject(n) is not None for n in ast.walk(fn) if isinstance(n, ast.Attribute))
-        if not computes and not about_value:
-            ctx.bad('R3', cons + '::membership', f'{VALIDATOR} never tests the netloc of `{p}`: every URL is accepted', m.path, fn.lineno)
-            ctx.bad('R3', cons + '::decision', 'no exact-membership test of the netloc remains in the validator', m.path, fn.lineno)
-            return n_eval
+    # -- the decision list as a truth table over its tests (atoms independent; option tests fixed by constant propagation)
     rows = 0
-    open_paths: Dict[str, Tuple[List[Tuple[ast.AST, bool]], Dict[str, bool], str]] = {}
-    mkeys = list(member_atoms)
-    feasible_indep = [iv for _b, iv in combos]
-    for mv in ([False, True] if mkeys else [False]):
+    violating: Dict[str, dict] = {}
+    undecided: Dict[str, str] = {}
+    proven: List[str] = []
+    established_paths = 0
+    for b in bindings:
+        fixed = {k: _const_truth(by_key[k], b) for k in on_options}
+        free = [k for k in keys if fixed.get(k) is None]
         for fv in absdom.valuations(free):
-            if not any(all(fv[k] == iv[k] for k in indep) for iv in feasible_indep):
-                continue  # excluded by the values the options can take
             consulted: List[Tuple[str, bool]] = []
 
             def val(atom: ast.AST) -> bool:
                 key = absdom.atom_key(atom)
-                if key in member_atoms:
-                    r = mv if member_atoms[key] else not mv
-                else:
-                    r = fv[key]
-                consulted.append((key, r))
-                return r
+                r = fixed[key] if fixed.get(key) is not None else fv[key]
+                consulted.append((key, bool(r)))
+                return bool(r)
             o = absdom.walk_block(fn.body, val)
             rows += 1
             if o.kind == 'raise':
                 continue
-            if any(kk in member_atoms and (rr if member_atoms[kk] else not rr) for kk, rr in consulted):
-                continue  # accepted after the netloc was found in the allow-list
-            sig = '; '.join(('' if rr else 'not ') + short(kk, 60) for kk, rr in consulted)
-            open_paths.setdefault(sig, ([(by_key[kk], rr) for kk, rr in consulted if kk in about_value], {kk: rr for kk, rr in consulted if kk in indep}, o.kind))
-    if not open_paths:
-        ctx.need(member_atoms, f'{VALIDATOR}: no accepting path and no membership test (unrecognised shape)')
-        ctx.ok('R3', cons + '::decision', {'rows': rows, 'membership_atoms': mkeys, 'free_atoms': free, 'services': services, 'corpus_evaluations': n_eval,
-                                            'corpus_undetermined': n_unknown})
+            # does the path establish the host?
+            est = [kk for kk, rr in consulted if kk in about_value and shapes[kk] is not None and shapes[kk].kind in ('member', 'origin')  # type: ignore[union-attr]
+                   and rr == (not _negated_member(by_key[kk]))]
+            if est:
+                established_paths += 1
+                continue
+            sig = '; '.join((short(kk, 60) if rr else f'not ({short(kk, 60)})') for kk, rr in consulted) or 'no test'
+            if sig in violating or sig in undecided or sig in proven:
+                continue
+            conds = [(by_key[kk], rr) for kk, rr in consulted if kk in about_value]
+            unknown = [kk for kk, _ in consulted if kk in about_value and shapes[kk] is None]
+            if unknown:
+                undecided[sig] = unknown[0]
+                continue
+            prefix_conds = [(by_key[kk], rr) for kk, rr in consulted if kk in about_value and shapes[kk].kind == 'prefix']  # type: ignore[union-attr]
+            leaving = _leaving_classes(prefix_conds, p)
+            if not leaving:
+                proven.append(sig)
+                continue
+            violating[sig] = {'conds': conds, 'binding': b, 'kind': o.kind, 'leaving': leaving,
+                              'nonconf': [(kk, shapes[kk]) for kk, _ in consulted if kk in about_value and shapes[kk].kind == 'nonconf'],  # type: ignore[union-attr]
+                              'other': {kk: rr for kk, rr in consulted if kk not in about_value}}
+    ctx.unit('validator_accepting_paths', established_paths + len(violating) + len(undecided) + len(proven))
+    if violating:
+        domains = [f'{s_}.hail.is' for s_ in ['batch', 'auth', 'ci', 'monitoring']]
+        sig, v = next(iter(violating.items()))
+        why = []
+        for kk, sh in v['nonconf']:
+            txt, schema = _NONCONF[sh.sub]
+            why.append(f'`{short(kk, 70)}` ' + txt.format(x=sh.x or p) + f' (schema: {schema.format(good="<allowed netloc>")})')
+        shown = ', '.join(repr(''.join('' if c == _END else ('x' if c == _OTHER else c) for c in cl)) + '…' for cl in v['leaving'][:6])
+        ill = _illustrate(v['conds'], imports, p, v['binding'], domains)
+        msg = (f'{VALIDATOR} accepts (ends by `{v["kind"]}`) on the path [{short(sig, 260)}]' + (f' with option(s) {v["binding"]}' if v['binding'] else '')
+               + f' without having established `urlparse({p}).netloc in <netlocs of batch/auth/ci/monitoring>`, and the conditions of that path do not confine the value to '
+               f'site-relative references: values beginning {shown} remain possible'
+               + ('; ' + '; '.join(why) if why else '')
+               + (f'. Example consistent with the path: {p}={ill[0]!r} -> the browser goes to {ill[1]!r}' if ill else '. Example: next=https://evil.example/ or /\\evil.example/'))
+        ctx.bad('R3', cons + '::decision', msg, m.path, fn.lineno, extra={'paths': list(violating), 'illustration': ill})
         return rows
-    proven = []
-    for sig, (conds, iv, kind) in open_paths.items():
-        if not conds:
-            ctx.bad('R3', cons + '::decision', f'the validator ends by `{kind}` on the path [{sig or "no test"}] without having tested the netloc of `{p}` against the valid '
-                    'netlocs: next=https://evil.example/ is accepted', m.path, fn.lineno)
-            return rows
-        leaving = _leaving_classes(conds, p)
-        if leaving:
-            shown = ', '.join(repr(''.join('' if c == _END else ('x' if c == _OTHER else c) for c in cl)) + '…' for cl in leaving[:6])
-            raise AnalysisError(f'{VALIDATOR}: the path [{short(sig, 160)}] accepts without an allow-list test; strings beginning {shown} are not excluded by the tests '
-                                'the analysis interprets and no counter-example of the corpus is accepted - cannot decide')
-        proven.append(sig)
-    ctx.ok('R3', cons + '::decision', {'rows': rows, 'membership_atoms': mkeys, 'free_atoms': free, 'services': services,
-                                        'paths_accepting_site_relative_values_only': proven})
+    if undecided:
+        sig, k = next(iter(undecided.items()))
+        raise AnalysisError(f'{VALIDATOR}: the path [{short(sig, 160)}] accepts without an exact allow-list test and its condition `{short(k, 80)}` is not in the table of '
+                            'recognised shapes - cannot decide')
+    ctx.need(established_paths + len(proven) >= 1, f'{VALIDATOR}: no accepting path (unrecognised shape)')
+    ctx.ok('R3', cons + '::decision', {'rows': rows, 'tests': keys, 'services': services, 'paths_accepting_after_exact_membership': established_paths,
+                                        'paths_confined_to_site_relative_values': proven})
     return rows
+
+
+def _negated_member(a: ast.AST) -> bool:
+    """The atom is written `x not in L` (true means NOT a member)."""
+    return isinstance(a, ast.Compare) and len(a.ops) == 1 and isinstance(a.ops[0], ast.NotIn)
 
 
 def _check_external_url(ctx: Ctx) -> None:
@@ -1043,14 +1207,16 @@ def _check_external_url(ctx: Ctx) -> None:
 
 def run(ctx: Ctx) -> None:
     ctx.explanation = ('Taint/def-use over every function of auth/auth/*.py with CFG must-pass-through (exception edges out of the validation do not count as '
-                       'validated); decision list of validate_next_page_url: truth table + hostile-value corpus read as a browser reads it; f-string shape of '
+                       'validated); decision list of validate_next_page_url: truth table over a closed table of condition shapes + prefix classes; f-string shape of '
                        'DeployConfig.external_url.')
     ctx.rule('R1', 'every redirect whose location is client-controlled (request / session) is preceded on every path by validate_next_page_url on that value', 3)
     ctx.rule('R2', "every session['next'] store of a client-controlled value is preceded on every path by validate_next_page_url on that value", 3)
-    ctx.rule('R3', 'validate_next_page_url accepts only after urlparse(next).netloc was found to be an exact member of the netlocs of batch/auth/ci/monitoring (or the value is '
-             'provably site-relative); no hostile value of the corpus is accepted', 2)
+    ctx.rule('R3', 'every accepting path of validate_next_page_url has found urlparse(next).netloc to be an exact member of the netlocs of batch/auth/ci/monitoring, or '
+             'confines the value to site-relative prefixes', 2)
     ctx.rule('R4', 'DeployConfig.external_url always returns scheme://non-empty-authority…, so the empty netloc is never valid', 3)
-    ctx.assume('a browser reads a Location value as WHATWG URL parsing against an https base does (model: rules/c29.browser_host); urlparse behaves as in the checking interpreter')
+    ctx.assume('a value that begins with `/` followed by none of `/ \\ TAB LF CR` is a same-site reference for a browser; a value whose urlparse netloc is exactly an '
+               'allowed netloc is followed to that host')
+    # the browser model is used only to print an example for an established violation; keep it honest anyway
     for probe, want in (('/\\evil.example/', 'evil.example'), ('/batches', SAME_SITE), ('//evil.example', 'evil.example'), ('/\t/evil.example', 'evil.example'),
                         ('https://a.example\\@b.example/', 'a.example'), ('https://a.example@b.example/', 'b.example'), ('javascript:alert(1)', NOT_NAVIGABLE),
                         (' https://evil.example', 'evil.example'), ('https:/evil.example', 'evil.example'), ('/x//y', SAME_SITE)):
